@@ -296,4 +296,74 @@ Section ClosedForms.
     - eexists; apply nz_derive.
     - derive_is (nz_derive z). fold (al b). field. repeat split; lra.
   Qed.
+
+  (* ---------------------------------------------------------------- continuity up to the turning depth *)
+  (* At the turning depth gamma = 0: the closed forms stay continuous there (sqrt is continuous at 0),
+     although their derivatives blow up.  Used for the improper integrals of indirect rays. *)
+  Lemma cR_plus (f g : R -> R) x : continuous f x -> continuous g x -> continuous (fun y => f y + g y) x.
+  Proof. exact (continuous_plus f g x). Qed.
+  Lemma cR_minus (f g : R -> R) x : continuous f x -> continuous g x -> continuous (fun y => f y - g y) x.
+  Proof. exact (continuous_minus f g x). Qed.
+  Lemma cR_mult (f g : R -> R) x : continuous f x -> continuous g x -> continuous (fun y => f y * g y) x.
+  Proof. exact (continuous_mult f g x). Qed.
+  Lemma cR_opp (f : R -> R) x : continuous f x -> continuous (fun y => - f y) x.
+  Proof. exact (continuous_opp f x). Qed.
+  Lemma cR_const (c x : R) : continuous (fun _ : R => c) x.
+  Proof. apply continuous_const. Qed.
+  Lemma cR_id (x : R) : continuous (fun y : R => y) x.
+  Proof. apply continuous_id. Qed.
+  Lemma cR_sqrt (f : R -> R) x : continuous f x -> continuous (fun y => sqrt (f y)) x.
+  Proof. intros H. apply (continuous_comp f sqrt x H). apply continuous_sqrt. Qed.
+  Lemma cR_ln (f : R -> R) x : 0 < f x -> continuous f x -> continuous (fun y => ln (f y)) x.
+  Proof.
+    intros Hp H. apply (continuous_comp f ln x H).
+    apply (ex_derive_continuous (K:=R_AbsRing) (V:=R_NormedModule) ln (f x)). auto_derive. exact Hp.
+  Qed.
+
+  Lemma nz_continuous z : continuous nz z.
+  Proof. apply (ex_derive_continuous (K:=R_AbsRing) (V:=R_NormedModule) nz z). eexists; apply nz_derive. Qed.
+
+  Ltac cont :=
+    unfold Rdiv;
+    repeat match goal with
+    | |- continuous (fun _ => ?c) _ => apply cR_const
+    | |- continuous (fun y => y) _ => apply cR_id
+    | |- continuous nz _ => apply nz_continuous
+    | |- continuous (fun y => nz y) _ => apply nz_continuous
+    | |- continuous (fun y => @?f y + @?g y) _ => apply (cR_plus f g)
+    | |- continuous (fun y => @?f y - @?g y) _ => apply (cR_minus f g)
+    | |- continuous (fun y => @?f y * @?g y) _ => apply (cR_mult f g)
+    | |- continuous (fun y => - @?f y) _ => apply (cR_opp f)
+    | |- continuous (fun y => sqrt (@?f y)) _ => apply (cR_sqrt f)
+    end.
+
+  Lemma ga_continuous b z : continuous (ga b) z.
+  Proof. unfold ga. simpl pow. cont. Qed.
+  Lemma lg1_continuous b z : continuous (lg1 b) z.
+  Proof. unfold lg1. cont; apply ga_continuous. Qed.
+  Lemma lg2_continuous b z : continuous (lg2 b) z.
+  Proof. unfold lg2. cont; apply ga_continuous. Qed.
+  Lemma L1_continuous b z : 0 < lg1 b z -> continuous (L1 b) z.
+  Proof. intros H. unfold L1. cont. apply (cR_ln (lg1 b)); [exact H | apply lg1_continuous]. Qed.
+  Lemma L2_continuous b z : 0 < lg2 b z -> continuous (L2 b) z.
+  Proof. intros H. unfold L2. cont. apply (cR_ln (lg2 b)); [exact H | apply lg2_continuous]. Qed.
+
+  Ltac leaves H1 H2 :=
+    match goal with
+    | |- continuous (fun y => ga _ y) _ => apply ga_continuous
+    | |- continuous (ga _) _ => apply ga_continuous
+    | |- continuous (fun y => L1 _ y) _ => apply L1_continuous; exact H1
+    | |- continuous (L1 _) _ => apply L1_continuous; exact H1
+    | |- continuous (fun y => L2 _ y) _ => apply L2_continuous; exact H2
+    | |- continuous (L2 _) _ => apply L2_continuous; exact H2
+    end.
+
+  Lemma dist_cf_continuous b z : 0 < lg1 b z -> continuous (fun y => b / sqrt (al b) * L1 b y) z.
+  Proof. intros H. cont. all: leaves H H. Qed.
+  Lemma plen_cf_continuous b z : 0 < lg1 b z -> 0 < lg2 b z ->
+    continuous (fun y => n0 / sqrt (al b) * L1 b y + L2 b y) z.
+  Proof. intros H1 H2. cont. all: leaves H1 H2. Qed.
+  Lemma tof_cf_continuous c b z : 0 < lg1 b z -> 0 < lg2 b z ->
+    continuous (fun y => (sqrt (ga b y) / a + n0 * L2 b y + n0 ^ 2 / sqrt (al b) * L1 b y) / c) z.
+  Proof. intros H1 H2. cont. all: leaves H1 H2. Qed.
 End ClosedForms.
